@@ -87,7 +87,20 @@ def job(spec):
             objs[k].push_data(np.ascontiguousarray(data[lo:hi]).ravel(), 0 if first else lo, mode=h["mode"])
             ev.append(dict(tol, a="push", k=k, ka=0, kb=0, nsamps=nsamps, chunk=[[int(x) for x in row] for row in base[lo:hi]],
                            obs=observe(objs[k], a, b, full)))
-        if h["kind"] == "chunks":
+        if h["kind"] == "file":
+            # the accumulator as the library itself drives it: Filterbank.compute_stats(_basic) over a gulped sub-range of a file
+            from sigpyproc.readers import FilReader
+            from .. import fixtures as fx, pool as pl
+            pth = pl.worker_scratch() / f"c10_{abs(hash(json.dumps(h, sort_keys=True))) % 10**9}.fil"
+            fx.write_fil(pth, data.ravel(), C, 32, fch1=1500.0, foff=-1.0)
+            fil = FilReader(str(pth))
+            lo, n = h["start"], h["nsamps"]
+            (fil.compute_stats if full else fil.compute_stats_basic)(gulp=h["gulp"], start=lo, nsamps=n, quiet=True)
+            ev.append(dict(tol, a="push", k=1, ka=0, kb=0, nsamps=n, chunk=[[int(x) for x in row] for row in base[lo:lo + n]],
+                           obs=observe(fil.chan_stats, a, b, full)))
+            fil._file.close()
+            pth.unlink(missing_ok=True)
+        elif h["kind"] == "chunks":
             at = 0
             for n in h["parts"]:
                 push(1, at, at + n, at == 0, L)
@@ -156,11 +169,22 @@ def run(v) -> None:
                 hists.append({"kind": "merge", "cls": cls, "mode": rng.choice(["basic", "full"]), "stream": st, "split": s,
                               "order": rng.choice(["ab", "ba"]), "parts_a": rng.choice(list(compositions(s))),
                               "parts_b": rng.choice(list(compositions(L - s)))})
+    # the same accumulator driven by Filterbank.compute_stats / compute_stats_basic: every (gulp, start, nsamps) of short files
+    for cls in CLASSES:
+        for (L, C) in ([(6, 2)] if quick else [(6, 2), (9, 1), (8, 3)]):
+            st = stream_for(cls, L, C)
+            for mode in ("basic", "full"):
+                for start in range(0, L):
+                    for nsamps in range(1, L - start + 1):
+                        for gulp in ([1, 2, nsamps + 1] if quick else list(range(1, nsamps + 2))):
+                            if quick and (start * 5 + nsamps * 3 + gulp) % 3:
+                                continue
+                            hists.append({"kind": "file", "cls": cls, "mode": mode, "stream": st, "start": start, "nsamps": nsamps, "gulp": gulp})
     specs = [{"hists": hists[i::14]} for i in range(14)]
     traces = [t for r in pool.pmap(job, specs, workers=14) for t in r]
     for t in traces:
         v.evaluations += 1
-        if len(t["ev"]) >= 2:
+        if len(t["ev"]) >= 2 or (t["cfg"]["kind"] == "file" and t["cfg"]["gulp"] < t["cfg"]["nsamps"]):
             v.nontrivial.add(json.dumps(t["cfg"], sort_keys=True))
 
     def on_reject(tr, pos):
@@ -168,7 +192,7 @@ def run(v) -> None:
         cfg = dict(tr["cfg"])
         cfg["event_index"] = pos
         cfg["step"] = e["a"]
-        v.violation("StepMatchesAbstractAccumulator", "ChannelStats.push_data" if e["a"] == "push" else "ChannelStats.__add__",
+        v.violation("StepMatchesAbstractAccumulator", ("Filterbank.compute_stats" if cfg.get("kind") == "file" else "ChannelStats.push_data") if e["a"] == "push" else "ChannelStats.__add__",
                     cfg, {"obs": e["obs"], "tol": {k: e[k] for k in ("tolmean", "tolvar", "tolskew", "tolkurt")}},
                     "Moments (power sums) via Trace_Moments!ObsOK")
         return None
